@@ -71,8 +71,11 @@ def decAng (cx : Ctx) : Nat → Ang
   | 0 => {}
   | k + 1 => cx.angs.getD k {}
 
+/-- CNOT / CSIGN carry no argument (`arg_value=None`); the router rebuilds them from name, controls
+and targets alone, so their label is `0` whatever the IR gate carries -/
 def toRoute (cx : Ctx) (g : Gate) : Route.Gate :=
-  ⟨encName cx g.name, g.controls, g.targets, encAng cx g.arg, 0⟩
+  ⟨encName cx g.name, g.controls, g.targets,
+    if g.name = .CNOT ∨ g.name = .CSIGN then 0 else encAng cx g.arg, 0⟩
 
 def ofRoute (cx : Ctx) (r : Route.Gate) : Gate :=
   ⟨decName cx r.name, r.targets, r.controls, decAng cx r.arg⟩
